@@ -4,16 +4,128 @@
 //! connection is lost. One token per update sent to the gate, in order.
 //! Case grammar: `F bgp <prog|none>` then  G <tag> <attrs> <ann|-> <wd|->
 //! (peer = the hook's NegotiatedConfig::dummy(): AS12345)
+//! With `A <asn> <four>` as the second op the session is a REAL one: the engine plays a BGP peer of that AS over a
+//! loopback TCP stream against the real `handle_connection` (routecore's Session FSM, the writer task,
+//! `Processor::process`) with the filter installed (hook verif_connection_filtered::start_filtered): OPEN (My AS =
+//! the AS, or AS_TRANS plus the 4-octet capability when four = 1), KEEPALIVE, the UPDATEs (AS_PATH with 2-octet AS
+//! numbers when four = 0), FIN. The provenance the filter sees is then built from what the session NEGOTIATED.
+//! Observation: `peer:<AS the session registered in live_sessions>` in front of the same `seq:` token.
 use crate::engines::c10::{self, parse_attrs, parse_filter, plist, roto_source, update_bytes};
 use crate::engines::c10rib::{payload_tok, show_osm};
 use rotonda::payload::Update;
 use rotonda::verif::filter as vf;
+
+fn show_sent(sent: &[Update]) -> String {
+    let toks: Vec<String> = sent.iter().map(|u| match u {
+        Update::OutputStream(ms) => format!("O[{}]", ms.iter().map(show_osm).collect::<Vec<_>>().join(",")),
+        Update::Bulk(ps) => format!("U[{}]", ps.iter().map(payload_tok).collect::<Vec<_>>().join(",")),
+        Update::Single(p) => format!("U[{}]", payload_tok(p)),
+        Update::Withdraw(id, _) => format!("w#{id}"),
+        _ => "other".into(),
+    }).collect();
+    format!("seq:{}", toks.join(";"))
+}
+
+fn bgp_frame(ty: u8, body: &[u8]) -> Vec<u8> {
+    let mut v = vec![0xffu8; 16];
+    v.extend_from_slice(&((19 + body.len()) as u16).to_be_bytes());
+    v.push(ty);
+    v.extend_from_slice(body);
+    v
+}
+
+/// OPEN (RFC 4271 4.2): version 4, My AS (AS_TRANS when the AS does not fit or the 4-octet capability is sent with a
+/// 2-octet AS all the same), hold time 90, BGP id 10.0.0.9; capabilities, one optional parameter each: multiprotocol
+/// IPv4/IPv6 unicast/multicast and - `four` - the 4-octet AS number capability (RFC 6793) carrying the AS.
+fn open_bytes(asn: u32, four: bool) -> Vec<u8> {
+    let mut caps: Vec<(u8, Vec<u8>)> = vec![(1, vec![0, 1, 0, 1]), (1, vec![0, 2, 0, 1]), (1, vec![0, 1, 0, 2]), (1, vec![0, 2, 0, 2])];
+    if four { caps.push((65, asn.to_be_bytes().to_vec())); }
+    let mut params = vec![];
+    for (code, val) in caps {
+        params.extend_from_slice(&[2, (val.len() + 2) as u8, code, val.len() as u8]);
+        params.extend_from_slice(&val);
+    }
+    let my: u16 = if asn < 65536 { asn as u16 } else { 23456 };
+    let mut body = vec![4u8];
+    body.extend_from_slice(&my.to_be_bytes());
+    body.extend_from_slice(&90u16.to_be_bytes());
+    body.extend_from_slice(&[10, 0, 0, 9]);
+    body.push(params.len() as u8);
+    body.extend_from_slice(&params);
+    bgp_frame(1, &body)
+}
+
+fn tcp_runtime() -> &'static tokio::runtime::Runtime {
+    static RT: std::sync::OnceLock<tokio::runtime::Runtime> = std::sync::OnceLock::new();
+    RT.get_or_init(|| tokio::runtime::Builder::new_multi_thread().worker_threads(2).enable_all().build().unwrap())
+}
+
+/// the session of the case over a real TCP connection
+fn run_real_session(f: Option<vf::BgpInFunc>, asn: u32, four: bool, frames: Vec<Vec<u8>>) -> String {
+    use rotonda::verif::bgp_session::connection as bc;
+    use std::time::Duration;
+    use tokio::io::{AsyncReadExt, AsyncWriteExt};
+    tcp_runtime().block_on(async move {
+        let listener = tokio::net::TcpListener::bind("127.0.0.1:0").await.expect("loopback");
+        let addr = listener.local_addr().unwrap();
+        let client = tokio::net::TcpStream::connect(addr).await.unwrap();
+        let (server, peer) = listener.accept().await.unwrap();
+        drop(listener);
+        let _ = client.set_nodelay(true);
+        // the peer is configured by its address, any AS (what the session negotiated is then all there is)
+        let fx = bc::start_filtered(f, server, peer.ip(), 7, None).await;
+        let (mut rd, mut wr) = client.into_split();
+        // the peer reads and forgets whatever rotonda sends
+        let reader = tokio::spawn(async move {
+            let mut chunk = [0u8; 4096];
+            loop { match rd.read(&mut chunk).await { Ok(0) | Err(_) => break, Ok(_) => {} } }
+        });
+        let mut ok = wr.write_all(&open_bytes(asn, four)).await.is_ok() && wr.flush().await.is_ok();
+        // the loop has handled SessionNegotiated before anything else is sent
+        let t0 = std::time::Instant::now();
+        while t0.elapsed() < Duration::from_millis(1500) && fx.live().is_empty() && !fx.connection_finished() {
+            tokio::time::sleep(Duration::from_millis(1)).await;
+        }
+        let live = fx.live();
+        let peer_tok = match live.as_slice() {
+            [] => "peer:-".to_string(),
+            [(_, a)] => format!("peer:{}", a.into_u32()),
+            l => format!("peer:?{}", l.len()),
+        };
+        ok = ok && wr.write_all(&bgp_frame(4, &[])).await.is_ok();
+        for fr in frames {
+            ok = ok && wr.write_all(&fr).await.is_ok() && wr.flush().await.is_ok();
+        }
+        // FIN: routecore queues ConnectionLost behind the UPDATEs it has handed over; the loop handles them in order
+        let _ = wr.shutdown().await;
+        let ended = fx.finish(Duration::from_millis(1500)).await;
+        reader.abort();
+        let end = match ended.outcome { Some(Ok(())) => "", Some(Err(_)) => " !panic", None => " !hung" };
+        format!("{peer_tok} {}{}{}", show_sent(&ended.updates), end, if ok { "" } else { " !write" })
+    })
+}
 
 pub fn run_case(line: &str) -> String {
     let ops = crate::util::ops(line);
     if ops.is_empty() { return String::new(); }
     let (kind, prog) = parse_filter(&ops[0]);
     assert!(kind == "bgp");
+    if ops.len() > 1 && ops[1][0] == "A" {
+        let asn: u32 = ops[1][1].parse().unwrap();
+        let four = ops[1][2] == "1";
+        let f = match &prog {
+            Some(p) => match c10::compile(&roto_source(&kind, p)) { Ok(mut s) => s.bgp_in(), Err(e) => return format!("COMPILE-ERROR {}", e.replace('\n', " ")) },
+            None => None,
+        };
+        let mut frames = vec![];
+        for op in &ops[2..] {
+            assert!(op[0] == "G");
+            let mut a = parse_attrs(op[2]);
+            a.tag = op[1].parse().unwrap();
+            frames.push(update_bytes(&a, &plist(op[3]), &plist(op[4]), four).to_vec());
+        }
+        return run_real_session(f, asn, four, frames);
+    }
     let rt = tokio::runtime::Builder::new_current_thread().enable_all().build().unwrap();
     let _g = rt.enter();
     let f = match &prog {
@@ -29,14 +141,7 @@ pub fn run_case(line: &str) -> String {
         msgs.push(routecore::bgp::message::UpdateMessage::from_octets(bytes, &routecore::bgp::message::SessionConfig::modern()).unwrap());
     }
     let sent = rt.block_on(vf::verif_filtered_session(f, 7, msgs));
-    let toks: Vec<String> = sent.iter().map(|u| match u {
-        Update::OutputStream(ms) => format!("O[{}]", ms.iter().map(show_osm).collect::<Vec<_>>().join(",")),
-        Update::Bulk(ps) => format!("U[{}]", ps.iter().map(payload_tok).collect::<Vec<_>>().join(",")),
-        Update::Single(p) => format!("U[{}]", payload_tok(p)),
-        Update::Withdraw(id, _) => format!("w#{id}"),
-        _ => "other".into(),
-    }).collect();
-    format!("seq:{}", toks.join(";"))
+    show_sent(&sent)
 }
 
 pub fn special(_name: &str, _args: &[String]) -> bool { false }
